@@ -54,6 +54,11 @@
  * Active attempts to check for reader Q.S. before calling futex().
  */
 #define RCU_QS_ACTIVE_ATTEMPTS 100
+#ifdef URCU_VERIF
+#undef RCU_QS_ACTIVE_ATTEMPTS
+#define RCU_QS_ACTIVE_ATTEMPTS	\
+	((unsigned int) urcu_verif_knob(URCU_VERIF_KNOB_QS_ACTIVE_ATTEMPTS, 100))
+#endif
 
 /* If the headers do not support membarrier system call, fall back on RCU_MB */
 #ifdef __NR_membarrier
